@@ -3,6 +3,8 @@ FIXED = [
      'adaptive linear equality keeps', '(y == w).forall(S) with adaptive y, w lost S in the equality split: infeasible instead of feasible; findings/F14_declin_split_ambset.py'),
     ('F12', ['C04', 'C03'], 'R07', 'dro.Ambiguity.mix_support', 'exp_support.xmat ignored',
      'exponential-cone constraints in an expectation set', 'exptset(exp(E(z)) <= e) was dropped: worst-case mean 10 instead of 1; findings/F12_exptset_expcone.py'),
+    ('F07', ['C04', 'C13', 'C06'], 'R25', 'lp.DecAffine.sum', 'DecAffine(...): ctype not passed',
+     'sum() and trace() of a dro expression', "E(y).sum().ctype was 'R': expectation constraint compiled as worst case; findings/F07_sum_drops_ctype.py"),
 ]
 KNOWN = [
     ('F13', ['C04', 'C03'], 'R07', 'dro.Ambiguity.mix_support', 'exp_support.lmi ignored',
@@ -10,4 +12,13 @@ KNOWN = [
      'Repair needs the perspective of the LMI (linear @ mu - p * const >> 0) and cannot be validated here (no SDP solver installed)'),
     ('F13b', ['C04', 'C03'], 'R07', 'dro.Ambiguity.mix_support', 'pro_support.lmi ignored',
      'same for an LMI inside probset()'),
+    ('F22', ['C06', 'C12'], 'R25', 'lp.Convex.__init__', 'dead field self.sum_axis',
+     'exp(x).sum() <= t (and log(x).sum() >= t, the objective form, any axis) is compiled as max_i exp(x_i) <= t: the axis stored by '
+     'Convex.sum() is never read (2.718 instead of 5.472). Repair = carry sum_axis through neg/add/mul/le/ge/CvxConstr/DecCvxConstr/'
+     'ro_to_roc and lower summed X/L atoms with per-entry epigraph variables (~40 lines, 8 sites): not small; findings/F22_summed_atom.py'),
+    ('F22b', ['C06', 'C12'], 'R25', 'lp.Convex.__neg__', 'Convex(...): sum_axis not passed', 'same defect: -f.sum() forgets the axis'),
+    ('F22c', ['C06', 'C12'], 'R25', 'lp.Convex.__add__', 'Convex(...): sum_axis not passed', 'same defect: f.sum() + a forgets the axis'),
+    ('F22d', ['C06', 'C12'], 'R25', 'lp.Convex.__mul__', 'Convex(...): sum_axis not passed', 'same defect: c * f.sum() forgets the axis'),
+    ('F23', ['C06', 'C12'], 'R25', 'lp.Convex.sum', 'PerspConvex inherits -> Convex',
+     'pexp(x, s).sum() <= t loses the perspective scale (2.718 instead of 6.595); same repair as F22; findings/F23_persp_sum.py'),
 ]
